@@ -99,10 +99,12 @@ CHECKS["C01"] = dict(
          "of allocate_node/try_allocate_node/deallocate_node (any bucket policy, sizes, environment incl. upstream failure, fences up to 2^32) the live nodes - "
          "each as long as its bucket's node size, which is at least the requested size (identity and log2 buckets) - are pairwise disjoint, disjoint from every free cell of "
          "every bucket and from the array of list objects, inside held blocks; the bump pointer stays inside the current block and everything tracked lies below it; "
-         "every bucket list stays well formed; releases of live nodes always succeed; established by the constructor. Arrays on collections and small-node buckets: line-by-line correspondence of "
+         "every bucket list stays well formed; releases of live nodes always succeed; established by the constructor; the same for histories that also contain allocate_array / "
+         "try_allocate_array / deallocate_array (Props/C01CollArr: an array is entered as its ceil(count*size/node size) consecutive cells; all three stages of allocate_array incl. the "
+         "array's own reservation; a release of an array the caller holds always succeeds and returns exactly its cells). Small-node buckets: line-by-line correspondence of "
          "every returned address plus overlap / inside-owned / content-pattern / poison-after-release oracles on the real code in rel/rwdi/dbg.",
     note="partial: proof covers memory_pool over all three list types, memory_stack over growing/fixed sources, iteration regions; "
-         "collections: node operations over intrusive buckets proved, arrays and small-node buckets at correspondence+oracle level. Hypothesis n*node_size < 2^64 is necessary (machine-checked "
+         "collections: node and array operations over intrusive buckets proved, small-node buckets at correspondence+oracle level. Hypothesis n*node_size < 2^64 is necessary (machine-checked "
          "counterexample, finding D21). Environment hypotheses: blocks well formed and pairwise disjoint, pool object outside its blocks.",
     technique="Lean 4 proof (partition invariant over cells, order-independent; ordered-list structural invariant; induction over histories) + correspondence/oracles")
 CHECKS["C04"] = dict(
